@@ -70,6 +70,7 @@ type Tokenizer struct {
 	allowComments    bool
 	keyWord          map[string]bool
 	comfortEnabled   bool
+	inLiteral        bool
 }
 
 type Matcher func(r rune) (func(r rune) bool, bool)
@@ -233,10 +234,15 @@ func (t *Tokenizer) run(tokens chan<- Token) {
 		case ';':
 			tokens <- Token{tSemicolon, ";", t.getLine()}
 		case '"':
-			tokens <- t.readStr()
+			t.inLiteral = true
+			str := t.readStr()
+			t.inLiteral = false
+			tokens <- str
 		case '\'':
+			t.inLiteral = true
 			image := t.readSkip(func(c rune) bool { return c != '\'' }, false)
 			t.next(false)
+			t.inLiteral = false
 			tokens <- Token{tIdent, image, t.getLine()}
 		case '⁰':
 			tokens <- Token{tOperate, "^", t.getLine()}
@@ -388,17 +394,19 @@ func (t *Tokenizer) peek(skipComment bool) rune {
 		}
 	}
 
-	switch t.last {
-	case '•':
-		t.last = '*'
-	case '×':
-		t.last = '*'
-	case '÷':
-		t.last = '/'
-	case '–':
-		t.last = '-'
-	case 'ˆ':
-		t.last = '^'
+	if !t.inLiteral {
+		switch t.last {
+		case '•':
+			t.last = '*'
+		case '×':
+			t.last = '*'
+		case '÷':
+			t.last = '/'
+		case '–':
+			t.last = '-'
+		case 'ˆ':
+			t.last = '^'
+		}
 	}
 
 	t.isLast = true
